@@ -157,9 +157,10 @@ Definition authority_of (t : bytes) : option bytes :=
   | [] => None
   end.
 
-(* request-target = 1*( octet except SP CR LF ) *)
+(* request-target = 1*( VCHAR / obs-text ): no SP, no control character *)
+Definition target_byte (x : N) : bool := (33 <=? x) && negb (x =? 127).
 Definition target_shape (t : bytes) : bool :=
-  nonempty t && forallb (fun x => negb ((x =? 32) || (x =? 13) || (x =? 10))) t.
+  nonempty t && forallb target_byte t.
 
 (* ... of which only ASCII targets with a balanced IP-literal are URIs (RFC 3986) *)
 Definition target_policy (t : bytes) : bool :=
